@@ -120,6 +120,45 @@ def oracle_pure(ctx, n):
         ev += 1
         if abs(t - exp) > 1e-9 or (exp == 0.0 and False):
             common.add_violation(ctx, 'torsion of a textbook configuration', {'points': pts}, exp, t)
+    # exactly coplanar quadruples on a decimal grid (one-decimal fractional coordinates in a 10 A cell, shifted by a decimal vector): planar cis is 0,
+    # planar trans is +180 - the triple product that decides the sign is pure rounding noise here
+    from fractions import Fraction as _F
+    tried = 0
+    while tried < (4000 if ctx.thorough() else 150):
+        grid = [[_F(rng.randint(0, 9)), _F(rng.randint(0, 9)), _F(rng.randint(0, 9))] for _ in range(3)]
+        v1, v2 = sub(grid[1], grid[0]), sub(grid[2], grid[1])
+        nrm = cross(v1, v2)
+        if not any(nrm):
+            continue
+        # a fourth grid point in the plane of the first three
+        cand = [[_F(x), _F(y), _F(z)] for x in range(10) for y in range(10) for z in range(10) if dot(nrm, sub([_F(x), _F(y), _F(z)], grid[0])) == 0]
+        p4 = rng.choice(cand)
+        v3 = sub(p4, grid[2])
+        b_ = cross(v2, v3)
+        if not any(b_):
+            continue
+        s1 = float(dot(nrm, nrm)) / float(dot(v1, v1) * dot(v2, v2))
+        s2 = float(dot(b_, b_)) / float(dot(v2, v2) * dot(v3, v3))
+        if s1 < 0.05 ** 2 or s2 < 0.05 ** 2:
+            continue           # bounded away from collinearity
+        tried += 1
+        shift = [rng.choice([0.0, 0.1, 0.3, 1.7, -2.9, 12.3]) for _ in range(3)]
+        pts = [[float(c) + shift[i] for i, c in enumerate(p)] for p in (grid[0], grid[1], grid[2], p4)]
+        exp = 0.0 if dot(nrm, b_) > 0 else 180.0
+        ev += 1
+        try:
+            t = ats.torsion_angle(*[P(p) for p in pts])
+        except Exception as ex:
+            common.add_violation(ctx, 'torsion of four coplanar atoms (not collinear) raises', {'points': pts}, exp, '%s: %s' % (type(ex).__name__, ex))
+            break
+        # acos near +-1 amplifies a rounding error eps to sqrt(eps): 1e-4 degrees
+        if exp == 180.0 and abs(t + 180.0) < 1e-4:
+            common.add_violation(ctx, 'torsion of a planar trans arrangement is reported as -180 (outside (-180, 180])', {'points': pts}, 180.0, t,
+                                 cls='planar_trans_reported_as_minus_180')
+            continue
+        if abs(abs(t) - exp) > 1e-4:
+            common.add_violation(ctx, 'torsion of four coplanar atoms differs from 0 (cis) / 180 (trans)', {'points': pts}, exp, t)
+            break
     return ev
 
 
